@@ -117,6 +117,12 @@ def fromStr (txt : Bytes) : Except (Code × Nat) Unit :=
       | _ => .error (.InvalidNumber, 1)                     -- unreachable
     else .error (.InvalidNumber, 1)
 
+/-- the error of `Number::from_str`, `none` when it succeeds (decidable form for kernel-evaluated examples) -/
+def fromStrErr (txt : Bytes) : Option (Code × Nat) :=
+  match fromStr txt with
+  | .ok _ => none
+  | .error e => some e
+
 /-! ## states -/
 
 /-- reading the value of an object whose first key is the token -/
